@@ -68,6 +68,7 @@ type RpcCase struct {
 	Opts        []string `json:"opts"`  // unaryInt | streamInt | stats
 	Sizes       []int    `json:"sizes"` // sizes of the client messages (payload filler bytes)
 	Script      []Step   `json:"script"`
+	ReuseMD     bool     `json:"reusemd"` // the handler reuses one metadata.MD for all its SetHeader/SendHeader/SetTrailer calls
 	ReqMD       MD       `json:"reqmd"`
 	MaxRecv     int      `json:"maxrecv"`
 	MaxSend     int      `json:"maxsend"`
@@ -472,6 +473,24 @@ func (e *rpcEnv) matchSent(m proto.Message) (int, bool) {
 func (e *rpcEnv) runScript(ctx context.Context, recv func(proto.Message) error, send func(proto.Message) error,
 	setHdr func(metadata.MD) error, sendHdr func(metadata.MD) error, setTrl func(metadata.MD)) error {
 	nsend := 0
+	// reusemd: the handler keeps one metadata.MD of its own and refills it for every call (what it hands over must have
+	// been copied: grpc-go's streams do); once it is done it scribbles over the map and over the value slices
+	var work metadata.MD
+	wireMD := func(md MD) metadata.MD {
+		fresh := wireMD(md)
+		if !e.c.ReuseMD {
+			return fresh
+		}
+		if work == nil {
+			work = metadata.MD{}
+		}
+		scribble(work)
+		for k, vs := range fresh {
+			work[k] = vs
+		}
+		return work
+	}
+	defer func() { scribble(work) }()
 	for i, st := range e.c.Script {
 		switch st.Op {
 		case "sethdr":
@@ -906,6 +925,16 @@ func decodeGrpcMessage(s string) string {
 }
 
 // In cases and observations the values of "-bin" keys are written in hex.
+// scribble overwrites the values of md in place and empties it.
+func scribble(md metadata.MD) {
+	for k, vs := range md {
+		for i := range vs {
+			vs[i] = "scribbled"
+		}
+		delete(md, k)
+	}
+}
+
 func wireMD(md MD) metadata.MD {
 	out := metadata.MD{}
 	for k, vs := range md {
